@@ -48,6 +48,8 @@ type Config struct {
 	MaxPaths       int
 	ConcMax        int  // max alternatives when concretising a value
 	Sched          bool // explore schedules at visible operations
+	SchedSkipPkgs  string // comma list of package paths whose lock/atomic/channel operations are not scheduling points
+	SchedKinds     string // comma list of visible-operation kinds that are scheduling points (empty: all of rt,atomic,chan,select,lock,unlock)
 	KeepScripts    int  // number of assertion query scripts kept for cross-checks
 	SamplePaths    int  // passing paths whose model/tape is kept as samples
 	Trace          bool
